@@ -526,6 +526,13 @@ pub fn format_block(ctx: &Context, block: &Block, shape: Shape) -> Block {
             found_first_stmt = true;
         }
 
+        // If the statement is ignored or outside of the formatting range, it must be left exactly as it
+        // was, including its semicolon
+        if !matches!(ctx.should_format_node(&stmt), FormatNode::Normal) {
+            formatted_statements.push((stmt, semi.to_owned()));
+            continue;
+        }
+
         // If we have a semicolon, we need to push all the trailing trivia from the statement
         // and move it to the end of the semicolon
         let semicolon = match check_stmt_requires_semicolon(&stmt, stmt_iterator.peek()) {
@@ -593,7 +600,13 @@ pub fn format_block(ctx: &Context, block: &Block, shape: Shape) -> Block {
 
             // LastStmt will never need a semicolon
             // We need to check if we previously had a semicolon, and keep the comments if so
+            // (unless the statement is ignored or outside of the formatting range: then it is left as is)
             let semicolon = match semi {
+                Some(semi)
+                    if !matches!(ctx.should_format_node(&last_stmt), FormatNode::Normal) =>
+                {
+                    Some(semi.to_owned())
+                }
                 Some(semi) => {
                     // Append semicolon trailing trivia to the end, but before the newline
                     // TODO: this is a bit of a hack - we should probably move newline appending to this function
